@@ -145,9 +145,39 @@ def addUnseen (pg : PG P) (other : List (List P)) : PG P × List (Nat × List P)
   let obs := (other.zip parts).zipIdx.filterMap (fun ((g, part), i) => if part.isEmpty then some (i, g) else none)
   ({ groups := gs, index := buildIndex gs, valid := true }, obs)
 
+/-- the inner loop of `graphs.ConnectedProteinGraphs.get_connected_proteins` /
+    `decouple_connected_proteins` for one connected component: `for protein in proteins[1:]:
+    protein_groups.merge_groups(leading_protein, protein)`.  The first `merge_groups` that raises
+    ends the call; the state is what the earlier merges left. -/
+def mergeInto (pg : PG P) (lead : P) : List P → PG P × Option Err
+  | [] => (pg, none)
+  | p :: ps =>
+    match mergeGroups pg lead p with
+    | .ok pg' => mergeInto pg' lead ps
+    | .error e => (pg, some e)
+
+/-- `ConnectedProteinGraphs.get_connected_proteins(protein_groups)` (and `decouple_connected_proteins`
+    on components that cannot be split), graphs.py:104-111 / 118-124: every component (its sorted
+    protein nodes) is merged into the group of its first protein, then `remove_empty_groups`.
+    A component without protein node fails on `proteins[0]` (`IndexError`). -/
+def mergeComponents (pg : PG P) : List (List P) → PG P × Option Err
+  | [] => (removeEmpty pg, none)
+  | [] :: _ => (pg, some .indexError)
+  | (lead :: ps) :: cs =>
+    match mergeInto pg lead ps with
+    | (pg', none) => mergeComponents pg' cs
+    | (pg', some e) => (pg', some e)
+
 inductive Op (P : Type) where
   | append (g : List P) | extend (gs : List (List P)) | createIndex
   | merge (sup p : P) | removeEmpty | addUnseen (other : List (List P))
+  /-- `grouping.RescuedGrouping.update_protein_groups(protein_groups, infos)` with
+      `obsolete_protein_groups = ProteinGroups(obs)`: the caller grows the collection, which it must
+      do through `extend` (grouping.py:220) -/
+  | updateRescued (obs : List (List P))
+  /-- `graphs.ConnectedProteinGraphs.get_connected_proteins(protein_groups)` over the given
+      components -/
+  | mergeComponents (comps : List (List P))
   | getGroup (p : P) (check : Bool) | getIdx (p : P) (check : Bool)
   | getIdxs (ps : List P) (check : Bool) | getGroups (ps : List P) (check : Bool)
   | getLeading (ps : List P)
@@ -170,7 +200,8 @@ inductive Out (P : Type) where
 deriving Repr
 
 def Op.isMutator : Op P → Bool
-  | .append _ | .extend _ | .createIndex | .merge _ _ | .removeEmpty | .addUnseen _ => true
+  | .append _ | .extend _ | .createIndex | .merge _ _ | .removeEmpty | .addUnseen _
+  | .updateRescued _ | .mergeComponents _ => true
   | _ => false
 
 def outOf {α : Type} (f : α → Out P) : Except Err α → Out P
@@ -188,6 +219,11 @@ def step (pg : PG P) : Op P → PG P × Out P
     | .error e => (pg, .err e)
   | .removeEmpty  => (removeEmpty pg, .unit)
   | .addUnseen other => let r := addUnseen pg other; (r.1, .obsolete r.2)
+  | .updateRescued obs => ({ pg with groups := pg.groups ++ obs, valid := false }, .unit)  -- = the `extend` step
+  | .mergeComponents cs =>
+    match mergeComponents pg cs with
+    | (pg', none) => (pg', .unit)
+    | (pg', some e) => (pg', .err e)
   | .getGroup p c => (pg, outOf .group (getGroup pg p c))
   | .getIdx p c   => (pg, outOf .idx (getIdx pg p c))
   | .getIdxs ps c => (pg, outOf .idxs (getIdxs pg ps c))
